@@ -40,7 +40,9 @@ type genBody struct {
 	used bool
 }
 
-func newGenBody(gen int) *genBody { return &genBody{gen: gen, r: strings.NewReader("gen-" + strconv.Itoa(gen))} }
+func newGenBody(gen int) *genBody {
+	return &genBody{gen: gen, r: strings.NewReader("gen-" + strconv.Itoa(gen))}
+}
 func (b *genBody) Read(p []byte) (int, error) {
 	if b.used {
 		return 0, errors.New("request body read after it was consumed")
